@@ -622,7 +622,13 @@ def _run(ctx: core.Ctx):
         elif any(b != a for b, a in zip(reps, reps[1:])):
             ctx.broken("T3:impl-vs-model", f"read-only action {act} changes the catalog listing; the model says it writes nothing")
 
+    # (e) thorough tier: a live history on the Spark-backed session (two reads of one path with different options, then P acts
+    #     on its first frame) against P alone in a fresh process
+    spark_live = "not run (quick tier)"
+    if ctx.tier != "quick":
+        spark_live = spark_history(ctx)
     ctx.coverage.update({
+        "spark_live_history": spark_live,
         "evaluations": n_steps_cmp + n_hist_cmp + n_text_cmp + n_tab,
         "distinct_nontrivial": nontriv,
         "rule": "case = (program P, history H, interleaving) executed in one DuckDBSession, P alone in a fresh process, P alone in a "
@@ -655,6 +661,38 @@ def _run(ctx: core.Ctx):
     ]
     ctx.trusted += ["translate/c18_facts.py (fail-closed ast translator)", "checks/c18_worker.py, c18_gen.py, c18_model.py (harness)",
                     "CPython subprocess isolation for 'fresh session'"]
+
+
+def spark_history(ctx):
+    sw = os.path.join(core.VERIF, "checks", "c18_spark_worker.py")
+    env = {k: v for k, v in os.environ.items() if k not in ("PYTHONPATH",)}
+    env["PYTHONPATH"] = core.REPO
+    env["PYSPARK_PYTHON"] = core.PY
+
+    def one(hist):
+        try:
+            p = subprocess.run([core.PY, sw], input=json.dumps({"history": hist}), capture_output=True, text=True, env=env, timeout=420)
+        except subprocess.TimeoutExpired:
+            return None
+        for line in p.stdout.splitlines():
+            if line.startswith("@@"):
+                return json.loads(line[2:])
+        return None
+    with ThreadPoolExecutor(max_workers=2) as ex:
+        alone, hist = list(ex.map(one, [False, True]))
+    if alone is None or hist is None:
+        ctx.log("live Spark history not available (no JVM / pyspark did not start): skipped")
+        return "skipped: the Spark session did not start"
+    obs = lambda o: {k: o.get(k) for k in ("rows", "count", "columns", "error")}  # noqa
+    if obs(alone) != obs(hist):
+        ctx.deviation("C18/history-changes-result:spark-reader:second-read-of-the-same-path",
+                      "on the Spark-backed session a frame read from a file changes (or fails) after other work read the same path "
+                      "with other options",
+                      {"engine": "spark", "program": "p = session.read.load(path, format='csv', header=True, nullValue='b'); p.collect()",
+                       "history": "session.read.load(path, format='csv', header=True); session.read.load(path, format='csv', header=False)",
+                       "P_observed_with_history": obs(hist), "P_observed_alone_in_fresh_process": obs(alone)})
+        return "differs"
+    return "same"
 
 
 def replay(ctx, rp):
